@@ -1,1 +1,440 @@
 use super::*;
+use crate::verif_common::*;
+
+// ===========================================================================
+// C02: stream readers on hostile streams
+// ===========================================================================
+const SBUF: usize = 56;
+const MAX_SHORT_READS: u32 = 1;
+
+/// Symbolic `Read`: hands out `data[..eof]`, then EOF (Ok(0)). Up to
+/// MAX_SHORT_READS calls return an arbitrary positive number of bytes smaller
+/// than requested (at arbitrary points of the stream); all other calls fill the
+/// request as far as the stream allows. Any call may instead fail with an I/O
+/// error.
+struct SymReader {
+    data: [u8; SBUF],
+    eof: usize,
+    pos: usize,
+    calls: u32,
+    short_reads: u32,
+}
+
+impl Read for SymReader {
+    fn read(&mut self, buf: &mut [u8]) -> std::io::Result<usize> {
+        self.calls += 1;
+        if kani::any() {
+            return Err(std::io::Error::from(std::io::ErrorKind::ConnectionReset));
+        }
+        if self.pos >= self.eof || buf.is_empty() {
+            return Ok(0);
+        }
+        let avail = self.eof - self.pos;
+        let max = if buf.len() < avail { buf.len() } else { avail };
+        let mut k = max;
+        if self.short_reads < MAX_SHORT_READS && kani::any() {
+            let s: usize = kani::any();
+            kani::assume(s >= 1 && s <= max);
+            k = s;
+            self.short_reads += 1;
+        }
+        buf[..k].copy_from_slice(&self.data[self.pos..self.pos + k]);
+        self.pos += k;
+        Ok(k)
+    }
+}
+
+/// Concrete-shape reader: EOF position and the size of the (single) short
+/// first read are per-instance constants, so every size CBMC sees is concrete
+/// (5x cheaper); stream contents stay symbolic, any call may fail.
+struct ConcReader<const EOF: usize, const SPLIT: usize> {
+    data: [u8; SBUF],
+    pos: usize,
+    calls: u32,
+    fail_at: u32,
+}
+
+impl<const EOF: usize, const SPLIT: usize> Read for ConcReader<EOF, SPLIT> {
+    fn read(&mut self, buf: &mut [u8]) -> std::io::Result<usize> {
+        self.calls += 1;
+        if self.calls == self.fail_at {
+            return Err(std::io::Error::from(std::io::ErrorKind::ConnectionReset));
+        }
+        if self.pos >= EOF || buf.is_empty() {
+            return Ok(0);
+        }
+        let avail = EOF - self.pos;
+        let mut k = if buf.len() < avail { buf.len() } else { avail };
+        if self.calls == 1 && SPLIT > 0 && SPLIT < k {
+            k = SPLIT;
+        }
+        buf[..k].copy_from_slice(&self.data[self.pos..self.pos + k]);
+        self.pos += k;
+        Ok(k)
+    }
+}
+
+trait Stream: Read {
+    fn data(&self) -> &[u8; SBUF];
+    fn data_mut(&mut self) -> &mut [u8; SBUF];
+    fn eof(&self) -> usize;
+    fn pos(&self) -> usize;
+}
+impl Stream for SymReader {
+    fn data(&self) -> &[u8; SBUF] { &self.data }
+    fn data_mut(&mut self) -> &mut [u8; SBUF] { &mut self.data }
+    fn eof(&self) -> usize { self.eof }
+    fn pos(&self) -> usize { self.pos }
+}
+impl<const EOF: usize, const SPLIT: usize> Stream for ConcReader<EOF, SPLIT> {
+    fn data(&self) -> &[u8; SBUF] { &self.data }
+    fn data_mut(&mut self) -> &mut [u8; SBUF] { &mut self.data }
+    fn eof(&self) -> usize { EOF }
+    fn pos(&self) -> usize { self.pos }
+}
+fn conc_reader<const EOF: usize, const SPLIT: usize>() -> ConcReader<EOF, SPLIT> {
+    ConcReader { data: kani::any(), pos: 0, calls: 0, fail_at: kani::any() }
+}
+
+/// Pin the two declared payload lengths to per-instance constants by WRITING
+/// them into the stream (an `assume` would leave them symbolic for CBMC's
+/// constant propagation, and every allocation size / loop bound with them).
+fn pin_lengths(d: &mut [u8; SBUF], q: u64, b: u64) {
+    let qb = q.to_le_bytes();
+    let bb = b.to_le_bytes();
+    let mut i = 0;
+    while i < 8 {
+        d[24 + i] = qb[i];
+        d[32 + i] = bb[i];
+        i += 1;
+    }
+}
+
+fn sle64(b: &[u8; SBUF], o: usize) -> u64 {
+    u64::from_le_bytes([b[o], b[o + 1], b[o + 2], b[o + 3], b[o + 4], b[o + 5], b[o + 6], b[o + 7]])
+}
+
+fn sym_reader() -> SymReader {
+    let r = SymReader { data: kani::any(), eof: kani::any(), pos: 0, calls: 0, short_reads: 0 };
+    kani::assume(r.eof <= SBUF);
+    r
+}
+
+fn stream_frame_ok(d: &[u8; SBUF], eof: usize) -> bool {
+    let len = sle64(d, 0) as u128;
+    let q = sle64(d, 24) as u128;
+    let b = sle64(d, 32) as u128;
+    d[8] == 0x07 && d[9] == 0x15 && len == 48 + q + b && eof as u128 >= 48 + q + b
+}
+
+/// Small declared sizes: Q and B are per-instance constants (a symbolic
+/// allocation size exhausts memory); every other header bit and the stream
+/// bytes stay symbolic.
+fn check_read_message<R: Stream, const Q: u64, const B: u64>(mut r: R) {
+    pin_lengths(r.data_mut(), Q, B);
+    let res = read_message(&mut r);
+    let d = *r.data();
+    let res_ok = res.is_ok();
+    match res {
+        Ok(m) => {
+            assert!(stream_frame_ok(&d, r.eof()), "read_message accepted an inconsistent or truncated frame");
+            assert!(m.query.len() == Q as usize && m.body.len() == B as usize);
+            let mut i = 0;
+            while i < Q as usize {
+                assert!(m.query[i] == d[48 + i]);
+                i += 1;
+            }
+            let mut j = 0;
+            while j < B as usize {
+                assert!(m.body[j] == d[48 + Q as usize + j]);
+                j += 1;
+            }
+            assert!(r.pos() == 48 + (Q + B) as usize, "reader consumed bytes beyond the frame");
+            assert!(m.header.id == sle64(&d, 16));
+            std::mem::forget(m);
+        }
+        Err(e) => {
+            std::mem::forget(e);
+        }
+    }
+    let ok = res_ok;
+    kani::cover!(!ok);
+    kani::cover!(ok || r.eof() < 48 + (Q + B) as usize);
+}
+
+fn check_read_message_into<R: Stream, const Q: u64, const B: u64>(mut r: R) {
+    pin_lengths(r.data_mut(), Q, B);
+    let mut buf: Vec<u8> = Vec::new();
+    let res = read_message_into(&mut r, &mut buf);
+    let d = *r.data();
+    let res_ok = res.is_ok();
+    match res {
+        Ok(()) => {
+            assert!(stream_frame_ok(&d, r.eof()), "read_message_into accepted an inconsistent or truncated frame");
+            let total = 48 + (Q + B) as usize;
+            assert!(buf.len() == total && r.pos() == total);
+            let mut i = 0;
+            while i < total {
+                assert!(buf[i] == d[i], "buffer is not the frame read from the stream");
+                i += 1;
+            }
+        }
+        Err(e) => {
+            std::mem::forget(e);
+        }
+    }
+    kani::cover!(!res_ok);
+    kani::cover!(res_ok || r.eof() < 48 + (Q + B) as usize);
+    std::mem::forget(buf);
+}
+
+macro_rules! c02_stream {
+    ($name:ident, $unw:expr, $body:expr) => {
+        #[kani::proof]
+        #[kani::stub(std::alloc::alloc, crate::verif_common::alloc_stub)]
+        #[kani::stub(std::alloc::alloc_zeroed, crate::verif_common::alloc_zeroed_stub)]
+        #[kani::stub(std::alloc::realloc, crate::verif_common::realloc_stub)]
+        #[kani::unwind($unw)]
+        fn $name() {
+            $body
+        }
+    };
+}
+
+// ---- quick tier: concrete stream shapes (EOF, first short read), symbolic contents ----
+
+//@ name: c02_rm_q2b3_exact
+//@ prop: C02
+//@ tier: quick
+//@ clause: read_message on a hostile stream never panics and returns Ok only for a complete consistent frame whose query/body are the stream bytes
+//@ funcs: io::read_message; io::read_exact; io::try_zeroed_vec; Header::decode; Message::new
+//@ symbolic: 56 stream bytes (every bit except the two declared payload lengths: length/magic/id/formats/ec all arbitrary), an I/O error at any read call
+//@ bounds: declared query_length=2, body_length=3; stream ends exactly at the frame end (EOF=53); reads never short; unwind 12
+//@ oracle: u128 consistency predicate on the raw stream bytes; bytewise comparison
+//@ stubs: std::alloc::alloc / alloc_zeroed / realloc -> null for requests >= 2^62 bytes
+//@ replay: playback
+c02_stream!(c02_rm_q2b3_exact, 12, check_read_message::<_, 2, 3>(conc_reader::<53, 0>()));
+
+//@ name: c02_rm_q2b3_trunc1_split7
+//@ prop: C02
+//@ tier: quick
+//@ clause: as c02_rm_q2b3_exact: stream truncated one byte before the frame end, header delivered in two reads (7 + 41)
+//@ funcs: io::read_message; io::read_exact; io::try_zeroed_vec; Header::decode; Message::new
+//@ symbolic: as c02_rm_q2b3_exact
+//@ bounds: query_length=2, body_length=3; EOF=52; first read returns 7 bytes; unwind 12
+//@ oracle: result must be Err unless the header is inconsistent anyway (then Err too): Ok is impossible
+//@ stubs: std::alloc::alloc / alloc_zeroed / realloc -> null for requests >= 2^62 bytes
+//@ replay: playback
+c02_stream!(c02_rm_q2b3_trunc1_split7, 12, check_read_message::<_, 2, 3>(conc_reader::<52, 7>()));
+
+//@ name: c02_rm_q2b3_trailing
+//@ prop: C02
+//@ tier: quick
+//@ clause: as c02_rm_q2b3_exact: 3 bytes follow the frame; the reader must stop at the frame end
+//@ funcs: io::read_message; io::read_exact; io::try_zeroed_vec; Header::decode; Message::new
+//@ symbolic: as c02_rm_q2b3_exact
+//@ bounds: query_length=2, body_length=3; EOF=56; first read returns 47 bytes; unwind 12
+//@ oracle: u128 consistency predicate; pos == 53 on Ok
+//@ stubs: std::alloc::alloc / alloc_zeroed / realloc -> null for requests >= 2^62 bytes
+//@ replay: playback
+c02_stream!(c02_rm_q2b3_trailing, 12, check_read_message::<_, 2, 3>(conc_reader::<56, 47>()));
+
+//@ name: c02_rmi_q2b3_exact_split7
+//@ prop: C02
+//@ tier: thorough
+//@ timeout: 2400
+//@ clause: read_message_into on a hostile stream never panics; on Ok the buffer holds exactly the frame bytes read from the stream
+//@ funcs: io::read_message_into; io::read_exact; io::try_reserve; Header::decode
+//@ symbolic: as c02_rm_q2b3_exact
+//@ bounds: query_length=2, body_length=3; EOF=53; first read returns 7 bytes; unwind 55 (Vec::resize(48) and the 53-byte compare)
+//@ oracle: u128 consistency predicate; buf == stream[..53]
+//@ stubs: std::alloc::alloc / alloc_zeroed / realloc -> null for requests >= 2^62 bytes
+//@ replay: playback
+c02_stream!(c02_rmi_q2b3_exact_split7, 55, check_read_message_into::<_, 2, 3>(conc_reader::<53, 7>()));
+
+//@ name: c02_rmi_q2b3_trunc1
+//@ prop: C02
+//@ tier: thorough
+//@ timeout: 2400
+//@ clause: as c02_rmi_q2b3_exact_split7: stream truncated one byte before the frame end
+//@ funcs: io::read_message_into; io::read_exact; io::try_reserve; Header::decode
+//@ symbolic: as c02_rm_q2b3_exact
+//@ bounds: query_length=2, body_length=3; EOF=52; unwind 55
+//@ oracle: Ok is impossible
+//@ stubs: std::alloc::alloc / alloc_zeroed / realloc -> null for requests >= 2^62 bytes
+//@ replay: playback
+c02_stream!(c02_rmi_q2b3_trunc1, 55, check_read_message_into::<_, 2, 3>(conc_reader::<52, 0>()));
+
+// ---- thorough tier: symbolic EOF (every truncation point) and a short read of symbolic size anywhere ----
+
+//@ name: c02_rm_q2b3_symbolic_eof
+//@ prop: C02
+//@ tier: thorough
+//@ clause: as c02_rm_q2b3_exact, for every truncation point and every placement/size of one short read
+//@ funcs: io::read_message; io::read_exact; io::try_zeroed_vec; Header::decode; Message::new
+//@ symbolic: 56 stream bytes, EOF position 0..=56, one short read of arbitrary size at an arbitrary call, an I/O error at any call
+//@ bounds: query_length=2, body_length=3; stream <= 56 bytes; at most 1 short read (other reads fill the request up to EOF); unwind 12
+//@ oracle: u128 consistency predicate; bytewise comparison
+//@ stubs: std::alloc::alloc / alloc_zeroed / realloc -> null for requests >= 2^62 bytes
+//@ timeout: 1800
+//@ replay: playback
+c02_stream!(c02_rm_q2b3_symbolic_eof, 12, check_read_message::<_, 2, 3>(sym_reader()));
+
+//@ name: c02_rm_q0b0_symbolic_eof
+//@ prop: C02
+//@ tier: thorough
+//@ clause: as c02_rm_q2b3_symbolic_eof, header-only frame
+//@ funcs: io::read_message; io::read_exact; io::try_zeroed_vec; Header::decode; Message::new
+//@ symbolic: as c02_rm_q2b3_symbolic_eof
+//@ bounds: query_length=0, body_length=0; stream <= 56 bytes; at most 1 short read; unwind 12
+//@ oracle: u128 consistency predicate
+//@ stubs: std::alloc::alloc / alloc_zeroed / realloc -> null for requests >= 2^62 bytes
+//@ timeout: 1800
+//@ replay: playback
+c02_stream!(c02_rm_q0b0_symbolic_eof, 12, check_read_message::<_, 0, 0>(sym_reader()));
+
+//@ name: c02_rm_q0b8_symbolic_eof
+//@ prop: C02
+//@ tier: thorough
+//@ clause: as c02_rm_q2b3_symbolic_eof, empty query and 8-byte body
+//@ funcs: io::read_message; io::read_exact; io::try_zeroed_vec; Header::decode; Message::new
+//@ symbolic: as c02_rm_q2b3_symbolic_eof
+//@ bounds: query_length=0, body_length=8; stream <= 56 bytes; at most 1 short read; unwind 12
+//@ oracle: u128 consistency predicate; bytewise comparison
+//@ stubs: std::alloc::alloc / alloc_zeroed / realloc -> null for requests >= 2^62 bytes
+//@ timeout: 1800
+//@ replay: playback
+c02_stream!(c02_rm_q0b8_symbolic_eof, 12, check_read_message::<_, 0, 8>(sym_reader()));
+
+//@ name: c02_rm_q5b0_symbolic_eof
+//@ prop: C02
+//@ tier: thorough
+//@ clause: as c02_rm_q2b3_symbolic_eof, 5-byte query and empty body
+//@ funcs: io::read_message; io::read_exact; io::try_zeroed_vec; Header::decode; Message::new
+//@ symbolic: as c02_rm_q2b3_symbolic_eof
+//@ bounds: query_length=5, body_length=0; stream <= 56 bytes; at most 1 short read; unwind 12
+//@ oracle: u128 consistency predicate; bytewise comparison
+//@ stubs: std::alloc::alloc / alloc_zeroed / realloc -> null for requests >= 2^62 bytes
+//@ timeout: 1800
+//@ replay: playback
+c02_stream!(c02_rm_q5b0_symbolic_eof, 12, check_read_message::<_, 5, 0>(sym_reader()));
+
+//@ name: c02_rmi_q0b0_trailing
+//@ prop: C02
+//@ tier: thorough
+//@ clause: as c02_rmi_q2b3_exact_split7, header-only frame followed by 8 stray bytes
+//@ funcs: io::read_message_into; io::read_exact; io::try_reserve; Header::decode
+//@ symbolic: as c02_rm_q2b3_exact
+//@ bounds: query_length=0, body_length=0; EOF=56; first read returns 13 bytes; unwind 55
+//@ oracle: u128 consistency predicate; buf == stream[..48]
+//@ stubs: std::alloc::alloc / alloc_zeroed / realloc -> null for requests >= 2^62 bytes
+//@ replay: playback
+c02_stream!(c02_rmi_q0b0_trailing, 55, check_read_message_into::<_, 0, 0>(conc_reader::<56, 13>()));
+
+//@ name: c02_rmi_q1b7_short_header
+//@ prop: C02
+//@ tier: thorough
+//@ clause: as c02_rmi_q2b3_exact_split7, stream ends inside the header
+//@ funcs: io::read_message_into; io::read_exact; io::try_reserve; Header::decode
+//@ symbolic: as c02_rm_q2b3_exact
+//@ bounds: query_length=1, body_length=7; EOF=47; unwind 55
+//@ oracle: Ok is impossible
+//@ stubs: std::alloc::alloc / alloc_zeroed / realloc -> null for requests >= 2^62 bytes
+//@ replay: playback
+c02_stream!(c02_rmi_q1b7_short_header, 55, check_read_message_into::<_, 1, 7>(conc_reader::<47, 0>()));
+
+// ---- never-allocatable declared sizes ----
+
+/// Declared sizes >= 2^62: the reader must return an error, not panic
+/// ("capacity overflow") and not abort (handle_alloc_error).
+fn assume_huge(d: &[u8; SBUF]) {
+    let q = sle64(d, 24);
+    let b = sle64(d, 32);
+    kani::assume((q >= (1u64 << 62) && (b <= 8 || b >= (1u64 << 62))) || (q <= 1 && b >= (1u64 << 62)));
+}
+
+fn cover_consistent_huge(d: &[u8; SBUF]) -> bool {
+    d[8] == 0x07 && d[9] == 0x15
+        && sle64(d, 0) == 48u64.wrapping_add(sle64(d, 24)).wrapping_add(sle64(d, 32))
+        && (sle64(d, 24) as u128 + sle64(d, 32) as u128) < (1u128 << 63)
+}
+
+//@ name: c02_read_message_unallocatable
+//@ prop: C02
+//@ tier: quick
+//@ timeout: 900
+//@ clause: a consistent header declaring a never-allocatable query or body (>= 2^62 bytes) makes read_message return an error: no panic, no process abort
+//@ funcs: io::read_message; io::try_zeroed_vec; Header::decode
+//@ symbolic: all header bits with query_length >= 2^62 (body <= 8 or >= 2^62) or query_length in {0,1} and body_length >= 2^62; stream bytes; an I/O error at any call
+//@ bounds: 56-byte stream, reads never short; the allocator refuses exactly the requests >= 2^62 bytes
+//@ oracle: result is Err (a 56-byte stream can never hold the declared frame)
+//@ stubs: std::alloc::alloc / alloc_zeroed / realloc -> null for requests >= 2^62 bytes (an infallible allocation API then reaches handle_alloc_error, reported as failure)
+//@ replay: playback
+c02_stream!(c02_read_message_unallocatable, 12, {
+    let mut r = conc_reader::<56, 0>();
+    assume_huge(&r.data);
+    let res = read_message(&mut r);
+    assert!(res.is_err(), "a frame that cannot exist was accepted");
+    kani::cover!(r.pos == 48 && cover_consistent_huge(&r.data));
+    std::mem::forget(res);
+});
+
+
+// ---- never-allocatable sizes, pinned per instance (quick) ----
+fn check_unalloc_pinned<const Q: u64, const B: u64, const INTO: bool>() {
+    let mut r = conc_reader::<56, 0>();
+    pin_lengths(&mut r.data, Q, B);
+    // make the header fully consistent so the reader goes on to allocate
+    let total = 48u64 + Q + B; // const-evaluated: overflow would be a compile error
+    let tb = total.to_le_bytes();
+    let mut i = 0;
+    while i < 8 {
+        r.data[i] = tb[i];
+        i += 1;
+    }
+    r.data[8] = 0x07;
+    r.data[9] = 0x15;
+    if INTO {
+        let mut buf: Vec<u8> = Vec::new();
+        let res = read_message_into(&mut r, &mut buf);
+        assert!(res.is_err(), "a frame that cannot exist was accepted");
+        std::mem::forget(res);
+        std::mem::forget(buf);
+    } else {
+        let res = read_message(&mut r);
+        assert!(res.is_err(), "a frame that cannot exist was accepted");
+        std::mem::forget(res);
+    }
+    kani::cover!(r.pos == 48);
+}
+
+
+
+
+
+
+
+//@ name: c02_rmi_unalloc_q1_b2p63
+//@ prop: C02
+//@ tier: quick
+//@ clause: a consistent header declaring a size beyond isize::MAX makes read_message_into return an error instead of panicking with "capacity overflow" (the 2^62..2^63 abort class cannot be modelled for this function: it grows an existing buffer through realloc, which Kani does not let a stub fail)
+//@ funcs: io::read_message_into; io::try_zeroed_vec; io::try_reserve; Header::decode
+//@ symbolic: every header bit except magic and the three (consistent) length fields; stream bytes; an I/O error at any read call
+//@ bounds: query_length=1, body_length=2^63 (capacity overflow class) (per-instance constants); 56-byte stream; the allocator refuses exactly the requests >= 2^62 bytes; unwind 50
+//@ oracle: result is Err (a 56-byte stream can never hold the declared frame)
+//@ stubs: std::alloc::alloc / alloc_zeroed / realloc -> null for requests >= 2^62 bytes (an infallible allocation API then reaches handle_alloc_error, reported as failure)
+//@ replay: playback
+c02_stream!(c02_rmi_unalloc_q1_b2p63, 50, check_unalloc_pinned::<{ 1 }, { 1u64 << 63 }, true>());
+
+//@ name: c02_rmi_unalloc_qmax_b0
+//@ prop: C02
+//@ tier: thorough
+//@ clause: a consistent header declaring a size beyond isize::MAX makes read_message_into return an error instead of panicking with "capacity overflow" (the 2^62..2^63 abort class cannot be modelled for this function: it grows an existing buffer through realloc, which Kani does not let a stub fail)
+//@ funcs: io::read_message_into; io::try_zeroed_vec; io::try_reserve; Header::decode
+//@ symbolic: every header bit except magic and the three (consistent) length fields; stream bytes; an I/O error at any read call
+//@ bounds: query_length=u64::MAX-48, body_length=0 (declared total = u64::MAX) (per-instance constants); 56-byte stream; the allocator refuses exactly the requests >= 2^62 bytes; unwind 50
+//@ oracle: result is Err (a 56-byte stream can never hold the declared frame)
+//@ stubs: std::alloc::alloc / alloc_zeroed / realloc -> null for requests >= 2^62 bytes (an infallible allocation API then reaches handle_alloc_error, reported as failure)
+//@ replay: playback
+c02_stream!(c02_rmi_unalloc_qmax_b0, 50, check_unalloc_pinned::<{ u64::MAX - 48 }, { 0 }, true>());
+
